@@ -436,7 +436,33 @@ def fixed_histories():
             ]
 
 
+def fixed_histories_late_preconditions():
+    """Overrides of members whose bases state no precondition (they accept every call) in two unrelated hierarchies; then a
+    precondition is added to ONE of them afterwards: all the others keep accepting every call."""
+    def post(cid):
+        return ["post", {"id": cid, "form": "def", "args": ["result"], "err": "instance"}]
+
+    def cls(name, bases, member, decos):
+        return {"name": name, "bases": list(bases), "dbc": True, "invs": [], "class_body": [], "aliases": [],
+                "members": [{"name": member, "kind": "method", "async": False, "params": [prog.P("self"), prog.P("x")], "decos": decos}]}
+
+    for via in ("decorator", "add_to_checker"):
+        for target in ("KB", "KQ"):
+            yield ("precondition-added-afterwards-to-an-override-of-an-accept-all-member", via, target), [
+                cls("KA", [], "m_a", [post("ea")]), cls("KB", ["KA"], "m_a", [post("eb")]), cls("KC", ["KA"], "m_a", [post("ec")]),
+                cls("KP", [], "m_p", []), cls("KQ", ["KP"], "m_p", [post("eq")]),
+                {"decorate": {"id": "xlate", "cls": target, "member": "m_a" if target == "KB" else "m_p", "role": "pre", "via": via}},
+                cls("KD", ["KA"], "m_a", [post("ed")]),
+            ]
+
+
 def run(w) -> None:
+    if w.shard == 1 % w.nshards:
+        for meta, hist in fixed_histories_late_preconditions():
+            w.count("histories")
+            w.count("fixed_histories")
+            w.fixed_meta = meta
+            replay({"history": hist, "fixed": list(meta)}, w)
     if w.shard == 0:
         for meta, hist in fixed_histories():
             w.count("histories")
